@@ -283,7 +283,7 @@ func cluster3Scenario(out *Out, r *rand.Rand, sc int) {
 			cmd = &regattapb.Command{Type: regattapb.Command_DELETE, Kv: &regattapb.KeyValue{Key: c.Kv.Key}, PrevKvs: c.PrevKvs, RangeEnd: c.RangeEnd, Count: c.Count}
 		case regattapb.Command_TXN:
 			rq := &regattapb.TxnRequest{Table: []byte(tname), Compare: c.Txn.Compare, Success: c.Txn.Success, Failure: c.Txn.Failure}
-			if rq.IsReadonly() {
+			if txnIsReadonly(rq) {
 				return
 			}
 			var resp *regattapb.TxnResponse
